@@ -47,7 +47,7 @@ Definition judge_C03_m (s : sx) : verdict :=
   | L [L [pb; L cts]; L [I st; I vd; I w; m]] =>
     match duproblem pb, omap dterm cts with
     | Some (n, P), Some c =>
-      if negb (st =? 0) || negb (nonneg_terms c) || negb (cost_wf n c) || (10 <? n)%nat then base else
+      if negb (st =? 0) || negb (cost_wf n c) || (10 <? n)%nat then base else
       let mw := oweight (fst (optimal_ref n (norm_problem P) (Some c))) in
       and_model base (w =? mw) [mw; w]
     | _, _ => base
